@@ -110,7 +110,7 @@ pub fn alphabet() -> TreeAlphabet {
     let s = |v: &[&str]| v.iter().map(|x| x.to_string()).collect::<Vec<_>>();
     TreeAlphabet {
         consts: vec![true, false],
-        props: s(&["a", "p_1", "EXa", "3x", "EF1", "AU_2"]),
+        props: s(&["a", "p_1", "EXa", "3x", "EF1", "AU_2", "TRUE", "fALSE"]),
         vars: s(&["x", "xx"]),
         wilds: s(&["p", "AG0"]),
         doms: s(&["d", "3x"]),
